@@ -6,6 +6,7 @@ def build(tier):
     kinds = ["function", "macro", "endfunction", "endmacro", "cmake_parse_arguments", "set", "option", "cpp_class", "cpp_end_class",
              "cpp_attr", "cpp_member", "cpp_constructor", "ct_add_test", "ct_add_section", "add_test", "@other"]
     kinds += [p for p in procs if p not in kinds]          # every name the dispatch-by-name can find gets its own shard
-    obs = steps.step_obligations("C02.a", kinds, tier, 2 if quick else 3, 2 if quick else 3, symargs=False)
-    obs += steps.step_obligations("C02.a", [k for k in kinds if steps.ARITIES.get(k, [1])[-1] > 0], tier, 1, 1, symargs=True)
+    fixed = [k for k in kinds if k != "@other"]
+    obs = steps.step_obligations("C02.a", fixed, tier, 2 if quick else 3, 2 if quick else 3, symargs=True)
+    obs += steps.step_obligations("C02.a", ["@other"], tier, 0 if quick else 1, 0 if quick else 1, symargs=False)
     return dict(obligations=obs, explanation="x", assumptions=[])
